@@ -3,6 +3,7 @@ from mirlib import *
 import xml_rules
 import norm_rules
 import pcw_rules
+import header_rules
 
 TECHNIQUE = "XML schema extraction from MIR: symbolic evaluation of the serialisers (decoded format templates, expanded helper calls) into a document skeleton with field provenance; reader lookup tables per struct field; writer/reader inverse-map comparison, field coverage, format-spec check, escaping-gate dataflow, setter and raw-XML identity dataflow"
 EXPLANATION = (
@@ -14,7 +15,7 @@ EXPLANATION = (
     "an XML name was checked by validate_name; that each set_* method stores its argument unchanged into the field of its "
     "name and finalize moves exactly these fields into the descriptor; that the prototype's type attributes written and "
     "read agree; and that E57Reader::xml is exactly the bytes read and the writer writes exactly the transformer's output. "
-    "Also that the string reader returns Node::text() through conversions only, that every number written is the stored field itself, and that limit values are parsed with the type of their variant. Not decided: that every XML-1.0 string survives roxmltree's parsing (whitespace handling is trusted).")
+    "Also that the string reader returns Node::text() through conversions only, that every number written is the stored field itself, and that limit values are parsed with the type of their variant. The header's XML length is the byte length of the XML written (C02-R4), without which the reader cannot return the same XML. Not decided: that every XML-1.0 string survives roxmltree's parsing (whitespace handling is trusted).")
 
 
 def run(ctx):
@@ -39,4 +40,5 @@ def run(ctx):
         xml_rules.escaping_gate(ctx, prog, "R5")
         xml_rules.raw_xml_identity(ctx, prog, "R6")
         xml_rules.string_values_unchanged(ctx, prog, "R6")
+        header_rules.publication_order(ctx, prog, "R6")
     ctx.cfg = None
